@@ -8,7 +8,7 @@ cd "$W" || exit 3
 git checkout -q -- . && git clean -fdq -e target
 git apply "$O/patch.diff" || { echo "patch does not apply"; exit 3; }
 echo "== full suite with change"
-cargo test --offline --release 2>&1 | grep -E "^test result|FAILED|failed" | head -5
+echo "SUITE: $(cargo test --offline --release 2>&1 | grep -E "^test result|FAILED" | head -3 | tr "\n" " ")"
 cargo build --release --offline 2>&1 | tail -1
 run_demo() {
   case "$KIND" in
